@@ -1060,6 +1060,11 @@ def parse_primary_expr(lexer, unary_minus=False):
         elif token.value == "[" and token.type == "interpunction":
             result = parse_list_literal(lexer, token)
             if lexer.peekn(1, "=", "operator"):
+                if not isinstance(result, NodeList):
+                    raise CklSyntaxError(
+                        "Destructuring assign expected a list of identifiers",
+                        token.pos,
+                    )
                 identifiers = []
                 for item in result.items:
                     if not isinstance(item, NodeIdentifier):
